@@ -96,7 +96,24 @@ def run(ctx):
         ts, off, si = gen_abs(rng, tv, fam), (gen_rel(rng, tv, fam) if rng.random() < 0.5 else None), gen_rel(rng, tv, fam)
         i = rng.choice([0, 1, 2, 5, 1000, 10**6, 10**12, rng.randint(0, 10**9), -1, -5])
         n = rng.choice([0, 1, 2, 3, 5, 8, -1])
-        if case >= n_cases:
+        if case >= n_cases and case % 2:
+            # the LAST requested timestamp is the last one the family can represent in that direction: one more step would
+            # leave the range, so a generator that computes anything beyond what was asked for fails here
+            fam = rng.choice(["dt", "ht"])
+            alo, ahi, _, _ = FAMR[fam]
+            unit = rng.choice([1, 10**3, 10**6, 3_600_000_000])
+            step = rng.randint(1, 9) * unit
+            i = rng.randint(0, 12)
+            n = rng.randint(1, 5)
+            r = rng.randint(0, step - 1)
+            off = rng.choice([None, 0, 5 * unit, -7 * unit])
+            if rng.random() < 0.5:
+                si = step
+                ts = ahi - 1 - r - (i + n - 1) * step - (off or 0)
+            else:
+                si = -step
+                ts = alo + r + (i + n - 1) * step - (off or 0)
+        elif case >= n_cases:
             # every exact result in range, but only just: the timestamp sits next to a limit of its family and the offset
             # pulls away from it, so any other order of the additions leaves the range on the way
             fam = rng.choice(["dt", "ht"])
